@@ -35,7 +35,7 @@ def ignoredBody : String :=
 
 def loadPackageBody : String :=
   String.join [
-    "(block (if _ (call (. v0 ignored) (slice v2 2 _ _)) (block (return nil)) _) (if _ (== v1 nil) (block (= (v1) ((u& (lit (. sync WaitGroup))))) (defer (call (. v1 Wait)))) _) (:= (v3) ((call (. filepath Join) (. v0 root) (slice v2 2 _ _)))) (:= (v4 v5) ((call (. os ReadDir) v3))) (if _ (!= v5 nil) (block (return v5)) _) (range _ v6 v4 (block (switch _ _ (case ((call (. v6 IsDir))) (if _ (!= (call (. v6 Name)) \".dawn\") (block (:= (v7 _) ((call (. label Join) v2 (call (. v6 Name))))) (if (:= (v5) ((call (. v0 loadPackage) v1 v7))) (!= v5 nil) (block (return v5)) _)) _)) (case ((== (call (. v6 Name)) \"BUILD.dawn\")) (call (. v1 Add) 1) (go (call (func (block (call (. v0 loadModule) nil (u& (lit (. label Label) (kv Kind \"module\") (kv Package v2) (kv Name \"BUILD.dawn\")))) (call (. v1 Done)))))))))",
-    ") (return nil))"]
+    "(block (if _ (call (. v0 ignored) (slice v2 2 _ _)) (block (return nil)) _) (if _ (== v1 nil) (block (= (v1) ((u& (lit (. sync WaitGroup))))) (defer (call (. v1 Wait)))) _) (:= (v3) ((call (. filepath Join) (. v0 root) (slice v2 2 _ _)))) (:= (v4 v5) ((call (. os ReadDir) v3))) (if _ (!= v5 nil) (block (return v5)) _) (range _ v6 v4 (block (switch _ _ (case ((call (. v6 IsDir))) (if _ (!= (call (. v6 Name)) \".dawn\") (block (:= (v7 _) ((call (. label Join) v2 (call (. v6 Name))))) (if (:= (v5) ((call (. v0 loadPackage) v1 v7))) (!= v5 nil) (block (return v5)) _)) _)) (case ((== (call (. v6 Name)) \"BUILD.dawn\")) (call (. v1 Add) 1) (go (call (func (block (call verifPoint \"loader.thread.begin\" v2) (call (. v0 loadModule) nil (u& (lit (. label Label) (kv Kind \"module\") (kv Package v2) (kv Name",
+    " \"BUILD.dawn\")))) (call verifPoint \"loader.thread.end\" v2) (call (. v1 Done)))))))))) (return nil))"]
 
 end Dawn.Expected.Glob
